@@ -82,10 +82,18 @@ def install(path: str):
         except BaseException as e:
             emit({"ev": "raise", "mid": mid, "exc": type(e).__name__ + ": " + str(e)[:200], "children": len(multiprocessing.active_children())})
             raise
-        rows = []
+        rows, cols = [], []
         for _, r in df.iterrows():
             rows.append([_int(r["index"]), str(r["query"]), b2s(r["result"]), bool(r["inference_timed_out"]), bool(r["preprocessing_timed_out"])])
-        emit({"ev": "return", "mid": mid, "rows": rows, "children": len(multiprocessing.active_children())})
+            try:
+                cols.append([_int(r["signature_size"]), _int(r["number_conditionals"]), str(r["inference_system"]), str(r["smt_solver"]), str(r["pmaxsat_solver"]),
+                             str(r["belief_base"]), str(r["queries"]), float(r["preprocessing_time"]) >= 0, float(r["inference_time"]) >= 0])
+            except Exception as e:  # a missing / malformed column is itself an observation
+                cols.append([-1, -1, "?", "?", "?", "?", type(e).__name__, False, False])
+        es = self.epistemic_state
+        bb = es["belief_base"]
+        cfg = [len(bb.signature), len(bb.conditionals), str(es["inference_system"]), str(es["smt_solver"]), str(es["pmaxsat_solver"]), str(bb.name), str(queries.name)]
+        emit({"ev": "return", "mid": mid, "rows": rows, "cfg": cfg, "cols": cols, "children": len(multiprocessing.active_children())})
         return df
 
     o_prep = Inf.preprocess_belief_base
